@@ -28,6 +28,13 @@ ASSUMPTIONS = [
 ]
 
 
+def _index_values(du, idx, at):
+    """Values of the index returned by _joint_perm_comp: the reaching definitions of a local, or the in-place expression."""
+    if isinstance(idx, str):
+        return [d.value for d in du.strong_reaching(idx, at)]
+    return [idx]
+
+
 def _joint_perm_comp(dc: ast.DictComp, source_names):
     """Is `dc` a re-indexing of *all* entries of one dict by one index?  Returns index location or None."""
     if len(dc.generators) != 1:
@@ -50,7 +57,12 @@ def _joint_perm_comp(dc: ast.DictComp, source_names):
         return None
     idx = loc_name(v.slice)
     if idx is None:
-        return None
+        # the index expression written in place (not held in a local): returned as the expression itself when it
+        # does not depend on the comprehension's own variables
+        tnames = {n.id for n in ast.walk(g.target) if isinstance(n, ast.Name)}
+        if any(isinstance(n, ast.Name) and n.id in tnames for n in ast.walk(v.slice)):
+            return None
+        idx = v.slice
     if mode == "items":
         if not (isinstance(g.target, ast.Tuple) and len(g.target.elts) == 2):
             return None
@@ -64,7 +76,7 @@ def _joint_perm_comp(dc: ast.DictComp, source_names):
         inner = v.value
         if not (isinstance(inner, ast.Subscript) and loc_name(inner.value) == src_dict and loc_name(inner.slice) == kname):
             return None
-    if idx in (kname,):
+    if isinstance(idx, str) and idx in (kname,):
         return None
     return idx
 
@@ -125,10 +137,10 @@ def d1_joint_permutation(ctx):
                   f"`{src(late[0]) if late else ''}` stores a per-site attribute after the sort permutation: it stays in on-disk order "
                   "while the other attributes are sorted", key="store-after-perm")
         # index provenance: lexsort result
-        defs = du.strong_reaching(idx, a)
-        okidx = len(defs) == 1 and defs[0].value is not None and isinstance(defs[0].value, ast.Call) and call_name(defs[0].value) in ("lexsort", "unique", "argsort")
+        ivals = _index_values(du, idx, a)
+        okidx = len(ivals) == 1 and ivals[0] is not None and isinstance(ivals[0], ast.Call) and call_name(ivals[0]) in ("lexsort", "unique", "argsort")
         ctx.check(okidx, fi, a,
-                  f"{idx} = {src(defs[0].value) if defs and defs[0].value is not None else '?'}", "the permutation index is the result of the sort (its key order is decided by D2)",
+                  f"index = {src(ivals[0]) if ivals and ivals[0] is not None else '?'}", "the permutation index is the result of the sort (its key order is decided by D2)",
                   "the permutation index is not (only) the result of the sort call", key="perm-index")
     # restrictions
     for q, arg in (("spikeglx._split_geometry_into_shanks", None), ("neuropixel.split_trace_header", None)):
@@ -141,9 +153,8 @@ def d1_joint_permutation(ctx):
             idx = _joint_perm_comp(dc, None)
             okv = False
             if idx is not None:
-                ds = du2.strong_reaching(idx, dc)
-                okv = len(ds) == 1 and ds[0].value is not None and "where" in src(ds[0].value) and "shank" in src(ds[0].value) \
-                    and "==" in src(ds[0].value)
+                ds = _index_values(du2, idx, dc)
+                okv = len(ds) == 1 and ds[0] is not None and "where" in src(ds[0]) and "shank" in src(ds[0]) and "==" in src(ds[0])
             ctx.check(idx is not None and okv, f2, dc, dc, "restriction keeps, for every key, the entries of one shank (one index)",
                       "shank restriction is not a filter-free comprehension over all keys with the single index where(shank == s)",
                       key="restrict")
